@@ -1409,7 +1409,7 @@ class GroupByCumulative(Expr, GroupByBase):
             {"chunk": M.last, "columns": columns, **dropna},
             *by,
         )
-        return GroupByCumulativeFinalizer(
+        result = GroupByCumulativeFinalizer(
             frame,
             cum_raw,
             cum_last,
@@ -1419,6 +1419,11 @@ class GroupByCumulative(Expr, GroupByBase):
             columns,
             *by,
         )
+        if is_series_like(meta) and meta.name is None:
+            # The unnamed result (cumcount) went through a frame with column 0;
+            # all partitions but the first would come back named 0
+            result = RenameSeries(result, None)
+        return result
 
 
 class GroupByCumulativeFinalizer(Expr, GroupByBase):
